@@ -1,8 +1,13 @@
 import GqlModel.Validate.Engine
 /-
-  rules/overlapping_fields_can_be_merged.go  (the REPAIRED algorithm: `comparedFragments` is a
-  local map handed down the (E) chain, `findConflict` keeps the in-progress set `comparingFields`,
-  `sameValue` compares `Children`, `doTypesConflict` guards nil types and treats a leaf type as
+  rules/overlapping_fields_can_be_merged.go  (the POLYNOMIAL repair: the manager keeps, besides the
+  fragment-pair memo `comparedFragmentPairs`, the memo `comparedFieldsAndFragmentPairs` of the
+  (selection set, fragment name, exclusive) comparisons already made or under way during the
+  current `findConflictsWithinSelectionSet` call (it is made afresh for every such call);
+  `collectConflictsBetweenFieldsAndFragment` consults it first thing; there is no per-call
+  `comparedFragments` map and no in-progress set in `findConflict` any more; "do not compare a
+  fragment's fieldMap to itself" is an identity test; `sameValue` compares `Children`;
+  `doTypesConflict` tests nullability first, guards nil types and treats a leaf type as
   conflicting with every type but itself).
 
   Links.  The rule reads `Field.ObjectDefinition`, `Field.Definition` and
@@ -16,31 +21,29 @@ import GqlModel.Validate.Engine
   linked" from the event's snapshot of the side table (`Links.linked`), exactly as
   `Links.spreadDef` does for spreads.
 
-  Node identity.  Go compares `*ast.Field` pointers in `comparingFields` and uses
-  `reflect.DeepEqual(fieldsMap, fieldsMapB)` on two `*sequentialFieldsMap`.  Distinct nodes of one
-  parse have distinct `Position.Start` (DESIGN §4 "Node identity"), so
-  * pointer equality of two field nodes  ⇔  equality of `pos.start`, and
-  * `DeepEqual` of two field maps: `seq` slices equal as strings (both nil when no field was
-    pushed), `data` maps with the same keys and, per key, slices of the same length whose
-    elements are pairwise DeepEqual; two pointers are DeepEqual iff they are the same pointer or
-    point to DeepEqual structs, and two distinct `ast.Field` structs of one parse are never
-    DeepEqual because their `Position.Start` differ.  Hence DeepEqual ⇔ same response names in
-    the same order with the same node lists ⇔ `fmKey A = fmKey B` (in particular two EMPTY field
-    maps are DeepEqual — the Go code then skips the fragment, and so does the model).
+  Node identity.  Go keys `comparedFieldsAndFragmentPairs` by `sequentialFieldsMap.first`, the
+  first `ast.Selection` of the selection set the fields were collected from (an interface value
+  holding the node pointer; nil for an empty selection set), and compares two field maps by
+  `fieldsMap.first == fieldsMapB.first`.  ASSUMPTION (checked by the harness on every document of
+  X-overlap, `overlap-selection-identity`): in a parsed document (a) distinct selection nodes
+  (fields, spreads, inline fragments) have distinct `Position.Start` — DESIGN §4 "Node identity",
+  the assumption `Links.sels` already rests on — and (b) a node is the first element of at most one
+  selection set (the document is a tree).  Under it
+      first₁ == first₂  ⇔  both selection sets are empty or they are the same selection set
+                        ⇔  `selId sels₁ = selId sels₂`      (`selId` = `pos.start` of the first node).
 
   Totality.  Three recursions are not structural:
   * `findConflict → findConflictsBetweenSubSelectionSets → … → findConflict` — the knot is tied by
     `fcLevel` (recursion on the number of nested `findConflict` calls still allowed);
-  * the (E) chain `collectConflictsBetweenFieldsAndFragment → itself` (`chain`, own fuel);
+  * the (E) recursion `collectConflictsBetweenFieldsAndFragment → itself` (`chain`, own fuel);
   * the (G) recursion of `collectConflictsBetweenFragments.check` (`check`, own fuel).
-  `none` = out of fuel.  `overlapFuel` hands out `2·F²+2` levels (`F` = field nodes of the
-  selection set the observer was called for plus those of all fragment definitions — nothing
-  else is reachable; every nested `findConflict` has a fresh `(fieldA, fieldB, exclusive)` triple
-  in the in-progress set), `K+2` chain frames and `2·K²+2` check frames (`K` = fragment
-  definitions; a chain frame that recurses adds the name of a fragment definition to its local
-  `comparedFragments`, a check frame that recurses turns a fresh `(nameA, nameB, exclusive)`
-  triple of fragment names of `comparedFragmentPairs` from "not had" to "had").
-  `GqlProofs/Validate/Overlap*.lean` proves that these bounds are never exhausted.
+  `none` = out of fuel.  The state `OSt` carries the two memos and a GHOST counter `steps` (calls
+  of `findConflict`, `collectConflictsBetweenFieldsAndFragment` and `check` so far) that nothing
+  reads; `GqlProofs/Validate/Overlap*.lean` proves that the fuel handed out by `overlapRun` is
+  never exhausted and that `steps` grows by at most `overlapStepBound` per observer call: every
+  memo key is expanded at most once, an expansion costs at most `W = (N+1)²` steps (`N` = field
+  and spread nodes reachable), and what `findConflict` does without a memo descends the tree on
+  both sides.
 -/
 namespace Gql.Validate.Rules
 open Gql Gql.Validate
@@ -85,7 +88,7 @@ def sameArguments (args1 args2 : List Argument) : Bool :=
 
 /-- `doTypesConflict` -/
 def doTypesConflict (s : SV) : GType → GType → Bool
-  | .list e1 _ _, .list e2 _ _ => doTypesConflict s e1 e2
+  | .list e1 nn1 _, .list e2 nn2 _ => if nn1 != nn2 then true else doTypesConflict s e1 e2
   | .list _ _ _, .named _ _ _ => true
   | .named _ _ _, .list _ _ _ => true
   | .named n1 nn1 _, .named n2 nn2 _ =>
@@ -166,16 +169,22 @@ def fmOfList (fs : List FInfo) : FMap := fs.foldl (fun m f => fmPush (responseNa
 /-- `sequentialFieldsMap.Get` -/
 def fmGet (m : FMap) (rn : Name) : Option (List FInfo) := m.lookup rn
 
-/-- what `reflect.DeepEqual` sees of a field map (see "Node identity" above) -/
-def fmKey (m : FMap) : List (Name × List Nat) := m.map fun (k, fs) => (k, fs.map FInfo.key)
+/-- identity of a selection set: its first selection node (`sequentialFieldsMap.first`), `none`
+    for the empty selection set -/
+def selId : Selections → Option Nat
+  | .nil => none
+  | .cons x _ => some x.pos.start
 
-/-- `reflect.DeepEqual(fieldsMap, fieldsMapB)` -/
-def fmEq (a b : FMap) : Bool := fmKey a == fmKey b
+/-- `*sequentialFieldsMap`: the fields with the identity of the selection set they come from -/
+structure FM where
+  first : Option Nat
+  map : FMap
+  deriving Inhabited
 
 /-- `getFieldsAndFragmentNames` -/
 def getFieldsAndFragmentNames (s : SV) (l : Links) (parent : Option Definition) (sels : Selections) :
-    FMap × List SpreadNode :=
-  (fmOfList (collectFields s l parent sels), collectSpreads sels)
+    FM × List SpreadNode :=
+  ({ first := selId sels, map := fmOfList (collectFields s l parent sels) }, collectSpreads sels)
 
 /- ---------------- conflicts ---------------- -/
 
@@ -227,264 +236,260 @@ def Pairs.has (p : Pairs) (a b : Name) (excl : Bool) : Bool :=
   | none => false
   | some result => if !excl then !result else true
 
-/-- `comparingFields`: the `(fieldA, fieldB, areMutuallyExclusive)` triples whose sub-selections
-    are being compared further up the call stack -/
-abbrev Comparing := List (Nat × Nat × Bool)
+/-- `fieldsAndFragmentPair`: (identity of the selection set, fragment name, exclusive) -/
+abbrev FragKey := Option Nat × Name × Bool
 
-/-- `findConflict` as the collectors see it: `none` = out of fuel, otherwise the new
-    `comparedFragmentPairs` and the conflict (if any) -/
-abbrev FC := Bool → FInfo → FInfo → Comparing → Pairs → Option (Pairs × Option Conflict)
+/-- the manager: `comparedFragmentPairs` (per rule instance), `comparedFieldsAndFragmentPairs` (the
+    keys present; reset by every `findConflictsWithinSelectionSet`), and the ghost step counter -/
+structure OSt where
+  pairs : Pairs
+  seen : List FragKey
+  steps : Nat
+  deriving Inhabited
+
+def OSt.init : OSt := { pairs := [], seen := [], steps := 0 }
+
+def OSt.tick (st : OSt) : OSt := { st with steps := st.steps + 1 }
+
+/-- `findConflict` as the collectors see it: `none` = out of fuel, otherwise the new manager state
+    and the conflict (if any) -/
+abbrev FC := Bool → FInfo → FInfo → OSt → Option (OSt × Option Conflict)
 
 def optToList {α : Type} : Option α → List α
   | none => []
   | some a => [a]
 
 /-- `for _, fieldB := range fieldsB { findConflict(excl, fieldA, fieldB) }` -/
-def pairRow (fc : FC) (excl : Bool) (C : Comparing) (fa : FInfo) : List FInfo → Pairs → Option (Pairs × List Conflict)
-  | [], P => some (P, [])
-  | fb :: rest, P =>
-    match fc excl fa fb C P with
+def pairRow (fc : FC) (excl : Bool) (fa : FInfo) : List FInfo → OSt → Option (OSt × List Conflict)
+  | [], st => some (st, [])
+  | fb :: rest, st =>
+    match fc excl fa fb st with
     | none => none
-    | some (P1, c) =>
-      match pairRow fc excl C fa rest P1 with
+    | some (st1, c) =>
+      match pairRow fc excl fa rest st1 with
       | none => none
-      | some (P2, cs) => some (P2, optToList c ++ cs)
+      | some (st2, cs) => some (st2, optToList c ++ cs)
 
 /-- `for _, fieldA := range fieldsA { for _, fieldB := range fieldsB { … } }` -/
-def pairGrid (fc : FC) (excl : Bool) (C : Comparing) (fsB : List FInfo) : List FInfo → Pairs → Option (Pairs × List Conflict)
-  | [], P => some (P, [])
-  | fa :: rest, P =>
-    match pairRow fc excl C fa fsB P with
+def pairGrid (fc : FC) (excl : Bool) (fsB : List FInfo) : List FInfo → OSt → Option (OSt × List Conflict)
+  | [], st => some (st, [])
+  | fa :: rest, st =>
+    match pairRow fc excl fa fsB st with
     | none => none
-    | some (P1, cs1) =>
-      match pairGrid fc excl C fsB rest P1 with
+    | some (st1, cs1) =>
+      match pairGrid fc excl fsB rest st1 with
       | none => none
-      | some (P2, cs2) => some (P2, cs1 ++ cs2)
+      | some (st2, cs2) => some (st2, cs1 ++ cs2)
 
 /-- `collectConflictsBetween` -/
-def collectConflictsBetween (fc : FC) (excl : Bool) (C : Comparing) (B : FMap) : FMap → Pairs → Option (Pairs × List Conflict)
-  | [], P => some (P, [])
-  | (rn, fsA) :: rest, P =>
+def collectConflictsBetween (fc : FC) (excl : Bool) (B : FMap) : FMap → OSt → Option (OSt × List Conflict)
+  | [], st => some (st, [])
+  | (rn, fsA) :: rest, st =>
     match fmGet B rn with
-    | none => collectConflictsBetween fc excl C B rest P
+    | none => collectConflictsBetween fc excl B rest st
     | some fsB =>
-      match pairGrid fc excl C fsB fsA P with
+      match pairGrid fc excl fsB fsA st with
       | none => none
-      | some (P1, cs1) =>
-        match collectConflictsBetween fc excl C B rest P1 with
+      | some (st1, cs1) =>
+        match collectConflictsBetween fc excl B rest st1 with
         | none => none
-        | some (P2, cs2) => some (P2, cs1 ++ cs2)
+        | some (st2, cs2) => some (st2, cs1 ++ cs2)
 
 /-- `for idx, fieldA := range fields { for _, fieldB := range fields[idx+1:] { … } }` -/
-def pairTriangle (fc : FC) (C : Comparing) : List FInfo → Pairs → Option (Pairs × List Conflict)
-  | [], P => some (P, [])
-  | fa :: rest, P =>
-    match pairRow fc false C fa rest P with
+def pairTriangle (fc : FC) : List FInfo → OSt → Option (OSt × List Conflict)
+  | [], st => some (st, [])
+  | fa :: rest, st =>
+    match pairRow fc false fa rest st with
     | none => none
-    | some (P1, cs1) =>
-      match pairTriangle fc C rest P1 with
+    | some (st1, cs1) =>
+      match pairTriangle fc rest st1 with
       | none => none
-      | some (P2, cs2) => some (P2, cs1 ++ cs2)
+      | some (st2, cs2) => some (st2, cs1 ++ cs2)
 
 /-- `collectConflictsWithin` -/
-def collectConflictsWithin (fc : FC) (C : Comparing) : FMap → Pairs → Option (Pairs × List Conflict)
-  | [], P => some (P, [])
-  | (_, fs) :: rest, P =>
-    match pairTriangle fc C fs P with
+def collectConflictsWithin (fc : FC) : FMap → OSt → Option (OSt × List Conflict)
+  | [], st => some (st, [])
+  | (_, fs) :: rest, st =>
+    match pairTriangle fc fs st with
     | none => none
-    | some (P1, cs1) =>
-      match collectConflictsWithin fc C rest P1 with
+    | some (st1, cs1) =>
+      match collectConflictsWithin fc rest st1 with
       | none => none
-      | some (P2, cs2) => some (P2, cs1 ++ cs2)
+      | some (st2, cs2) => some (st2, cs1 ++ cs2)
 
 /-- the parameters that do not change during one `findConflictsWithinSelectionSet` call -/
 structure Env where
   s : SV
   d : QueryDoc
   l : Links
-  /-- frames handed to every (E) chain -/
+  /-- frames handed to every (E) recursion -/
   chainFuel : Nat
   /-- frames handed to every `check` recursion -/
   checkFuel : Nat
 
 /-- fields and spreads of `fragmentSpread.Definition.SelectionSet` -/
-def Env.fragFields (env : Env) (f : FragmentDef) : FMap × List SpreadNode :=
+def Env.fragFields (env : Env) (f : FragmentDef) : FM × List SpreadNode :=
   getFieldsAndFragmentNames env.s env.l (env.s.type? f.typeCond) f.sel
 
-/-- state of one (E) chain: the local `comparedFragments`, `comparedFragmentPairs`, conflicts found -/
-abbrev ChainSt := List Name × Pairs × List Conflict
-
-/-- a loop `for _, x := range xs { step(x) }` threading a chain state -/
-def chainLoop (step : SpreadNode → List Name → Pairs → Option ChainSt) :
-    List SpreadNode → List Name → Pairs → Option ChainSt
-  | [], M, P => some (M, P, [])
-  | sp :: rest, M, P =>
-    match step sp M P with
+/-- a loop `for _, x := range xs { step(x) }` threading the manager state and the conflicts -/
+def stLoop {α : Type} (step : α → OSt → Option (OSt × List Conflict)) :
+    List α → OSt → Option (OSt × List Conflict)
+  | [], st => some (st, [])
+  | x :: rest, st =>
+    match step x st with
     | none => none
-    | some (M1, P1, cs1) =>
-      match chainLoop step rest M1 P1 with
+    | some (st1, cs1) =>
+      match stLoop step rest st1 with
       | none => none
-      | some (M2, P2, cs2) => some (M2, P2, cs1 ++ cs2)
+      | some (st2, cs2) => some (st2, cs1 ++ cs2)
 
-/-- `collectConflictsBetweenFieldsAndFragment` (`M` = `comparedFragments`) -/
-def chain (env : Env) (fc : FC) (excl : Bool) (C : Comparing) (A : FMap) :
-    Nat → SpreadNode → List Name → Pairs → Option ChainSt
-  | 0, _, _, _ => none
-  | n + 1, sp, M, P =>
-    if M.contains sp.name then some (M, P, [])
+/-- `collectConflictsBetweenFieldsAndFragment` -/
+def chain (env : Env) (fc : FC) (excl : Bool) (A : FM) : Nat → SpreadNode → OSt → Option (OSt × List Conflict)
+  | 0, _, _ => none
+  | n + 1, sp, st0 =>
+    let st := st0.tick
+    let key : FragKey := (A.first, sp.name, excl)
+    if st.seen.contains key then some (st, [])
     else
-      let M1 := sp.name :: M
+      let st1 : OSt := { st with seen := key :: st.seen }
       match env.l.spreadDef env.d sp.name sp.pos with
-      | none => some (M1, P, [])
+      | none => some (st1, [])
       | some f =>
         let fb := env.fragFields f
-        if fmEq A fb.1 then some (M1, P, [])
+        if A.first == fb.1.first then some (st1, [])
         else
-          match collectConflictsBetween fc excl C fb.1 A P with
+          match collectConflictsBetween fc excl fb.1.map A.map st1 with
           | none => none
-          | some (P1, cs1) =>
-            match chainLoop (chain env fc excl C A n) (fb.2.filter fun x => x.name != sp.name) M1 P1 with
+          | some (st2, cs1) =>
+            match stLoop (chain env fc excl A n) (fb.2.filter fun x => x.name != sp.name) st2 with
             | none => none
-            | some (M2, P2, cs2) => some (M2, P2, cs1 ++ cs2)
-
-/-- a loop threading `comparedFragmentPairs` and the conflicts -/
-def pairsLoop {α : Type} (step : α → Pairs → Option (Pairs × List Conflict)) :
-    List α → Pairs → Option (Pairs × List Conflict)
-  | [], P => some (P, [])
-  | x :: rest, P =>
-    match step x P with
-    | none => none
-    | some (P1, cs1) =>
-      match pairsLoop step rest P1 with
-      | none => none
-      | some (P2, cs2) => some (P2, cs1 ++ cs2)
+            | some (st3, cs2) => some (st3, cs1 ++ cs2)
 
 /-- `collectConflictsBetweenFragments.check` -/
-def check (env : Env) (fc : FC) (excl : Bool) (C : Comparing) :
-    Nat → SpreadNode → SpreadNode → Pairs → Option (Pairs × List Conflict)
+def check (env : Env) (fc : FC) (excl : Bool) : Nat → SpreadNode → SpreadNode → OSt → Option (OSt × List Conflict)
   | 0, _, _, _ => none
-  | n + 1, a, b, P =>
-    if a.name == b.name then some (P, [])
-    else if P.has a.name b.name excl then some (P, [])
+  | n + 1, a, b, st0 =>
+    let st := st0.tick
+    if a.name == b.name then some (st, [])
+    else if st.pairs.has a.name b.name excl then some (st, [])
     else
-      let P0 := P.add a.name b.name excl
+      let st1 : OSt := { st with pairs := st.pairs.add a.name b.name excl }
       match env.l.spreadDef env.d a.name a.pos, env.l.spreadDef env.d b.name b.pos with
       | some fa, some fb =>
         let A := env.fragFields fa
         let B := env.fragFields fb
-        match collectConflictsBetween fc excl C B.1 A.1 P0 with
+        match collectConflictsBetween fc excl B.1.map A.1.map st1 with
         | none => none
-        | some (P1, cs1) =>
-          match pairsLoop (fun x => check env fc excl C n a x) B.2 P1 with
+        | some (st2, cs1) =>
+          match stLoop (fun x => check env fc excl n a x) B.2 st2 with
           | none => none
-          | some (P2, cs2) =>
-            match pairsLoop (fun x => check env fc excl C n x b) A.2 P2 with
+          | some (st3, cs2) =>
+            match stLoop (fun x => check env fc excl n x b) A.2 st3 with
             | none => none
-            | some (P3, cs3) => some (P3, cs1 ++ cs2 ++ cs3)
-      | _, _ => some (P0, [])
+            | some (st4, cs3) => some (st4, cs1 ++ cs2 ++ cs3)
+      | _, _ => some (st1, [])
 
 /-- `collectConflictsBetweenFragments` -/
-def collectConflictsBetweenFragments (env : Env) (fc : FC) (excl : Bool) (C : Comparing)
-    (a b : SpreadNode) (P : Pairs) : Option (Pairs × List Conflict) :=
-  check env fc excl C env.checkFuel a b P
+def collectConflictsBetweenFragments (env : Env) (fc : FC) (excl : Bool)
+    (a b : SpreadNode) (st : OSt) : Option (OSt × List Conflict) :=
+  check env fc excl env.checkFuel a b st
 
-/-- one iteration of the two (I) loops: a chain with a fresh `comparedFragments` -/
-def chainFresh (env : Env) (fc : FC) (excl : Bool) (C : Comparing) (A : FMap) (sp : SpreadNode) (P : Pairs) :
-    Option (Pairs × List Conflict) :=
-  match chain env fc excl C A env.chainFuel sp [] P with
-  | none => none
-  | some (_, P1, cs) => some (P1, cs)
+/-- `collectConflictsBetweenFieldsAndFragment` as the callers see it -/
+def fieldsAndFragment (env : Env) (fc : FC) (excl : Bool) (A : FM) (sp : SpreadNode) (st : OSt) :
+    Option (OSt × List Conflict) :=
+  chain env fc excl A env.chainFuel sp st
 
 /-- `findConflictsBetweenSubSelectionSets` (returns the conflict list, `[]` for Go's nil) -/
 def findConflictsBetweenSubSelectionSets (env : Env) (fc : FC) (excl : Bool) (a b : FInfo)
-    (C : Comparing) (P : Pairs) : Option (Pairs × List Conflict) :=
+    (st : OSt) : Option (OSt × List Conflict) :=
   let A := getFieldsAndFragmentNames env.s env.l (a.next env.s) a.node.sel
   let B := getFieldsAndFragmentNames env.s env.l (b.next env.s) b.node.sel
   -- (H)
-  match collectConflictsBetween fc excl C B.1 A.1 P with
+  match collectConflictsBetween fc excl B.1.map A.1.map st with
   | none => none
-  | some (P1, cs1) =>
+  | some (st1, cs1) =>
     -- (I)
-    match pairsLoop (chainFresh env fc excl C A.1) B.2 P1 with
+    match stLoop (fieldsAndFragment env fc excl A.1) B.2 st1 with
     | none => none
-    | some (P2, cs2) =>
-      match pairsLoop (chainFresh env fc excl C B.1) A.2 P2 with
+    | some (st2, cs2) =>
+      match stLoop (fieldsAndFragment env fc excl B.1) A.2 st2 with
       | none => none
-      | some (P3, cs3) =>
+      | some (st3, cs3) =>
         -- (J)
-        match pairsLoop (fun sa => pairsLoop (collectConflictsBetweenFragments env fc excl C sa) B.2) A.2 P3 with
+        match stLoop (fun sa => stLoop (collectConflictsBetweenFragments env fc excl sa) B.2) A.2 st3 with
         | none => none
-        | some (P4, cs4) => some (P4, cs1 ++ cs2 ++ cs3 ++ cs4)
+        | some (st4, cs4) => some (st4, cs1 ++ cs2 ++ cs3 ++ cs4)
 
 def typesConflictMsg (ta tb : GType) : Bytes :=
   msgConflictingTypes ++ dq ta.render ++ andSep ++ dq tb.render
 
 /-- `findConflict`, with `sub` for the call of `findConflictsBetweenSubSelectionSets` -/
 def findConflictBody (s : SV)
-    (sub : Bool → FInfo → FInfo → Comparing → Pairs → Option (Pairs × List Conflict)) : FC :=
-  fun parentExcl a b C P =>
+    (sub : Bool → FInfo → FInfo → OSt → Option (OSt × List Conflict)) : FC :=
+  fun parentExcl a b st0 =>
+    let st := st0.tick
     match a.obj, b.obj with
     | some oa, some ob =>
       let excl := parentExcl ||
         (oa.name != ob.name && oa.kind == .object && ob.kind == .object && a.dfn.isSome && b.dfn.isSome)
       let rn := responseName a.node
       if !excl && a.node.name != b.node.name then
-        some (P, some (.mk rn (dq a.node.name ++ andSep ++ dq b.node.name ++ msgDifferentFields) [] b.node.pos))
+        some (st, some (.mk rn (dq a.node.name ++ andSep ++ dq b.node.name ++ msgDifferentFields) [] b.node.pos))
       else if !excl && !sameArguments a.node.args b.node.args then
-        some (P, some (.mk rn msgDifferingArguments [] b.node.pos))
+        some (st, some (.mk rn msgDifferingArguments [] b.node.pos))
       else
         let tc : Option (GType × GType) := match a.dfn, b.dfn with
           | some da, some db => if doTypesConflict s da.type db.type then some (da.type, db.type) else none
           | _, _ => none
         match tc with
-        | some (ta, tb) => some (P, some (.mk rn (typesConflictMsg ta tb) [] b.node.pos))
+        | some (ta, tb) => some (st, some (.mk rn (typesConflictMsg ta tb) [] b.node.pos))
         | none =>
-          let pair := (a.key, b.key, excl)
-          if C.contains pair then some (P, none)
-          else
-            match sub excl a b (pair :: C) P with
-            | none => none
-            | some (P1, []) => some (P1, none)
-            | some (P1, c :: cs) => some (P1, some (.mk rn [] (c :: cs) b.node.pos))
-    | _, _ => some (P, none)
+          match sub excl a b st with
+          | none => none
+          | some (st1, []) => some (st1, none)
+          | some (st1, c :: cs) => some (st1, some (.mk rn [] (c :: cs) b.node.pos))
+    | _, _ => some (st, none)
 
 /-- `findConflict` with at most `n - 1` nested `findConflict` calls below it -/
 def fcLevel (env : Env) : Nat → FC
-  | 0 => fun _ _ _ _ _ => none
+  | 0 => fun _ _ _ _ => none
   | n + 1 => findConflictBody env.s (findConflictsBetweenSubSelectionSets env (fcLevel env n))
 
 /-- the (B)/(C) loops of `findConflictsWithinSelectionSet` -/
-def withinLoop (env : Env) (fc : FC) (A : FMap) : List SpreadNode → List Name → Pairs → Option ChainSt
-  | [], M, P => some (M, P, [])
-  | sa :: rest, M, P =>
-    match chain env fc false [] A env.chainFuel sa M P with
+def withinLoop (env : Env) (fc : FC) (A : FM) : List SpreadNode → OSt → Option (OSt × List Conflict)
+  | [], st => some (st, [])
+  | sa :: rest, st =>
+    match fieldsAndFragment env fc false A sa st with
     | none => none
-    | some (M1, P1, cs1) =>
-      match pairsLoop (collectConflictsBetweenFragments env fc false [] sa) rest P1 with
+    | some (st1, cs1) =>
+      match stLoop (collectConflictsBetweenFragments env fc false sa) rest st1 with
       | none => none
-      | some (P2, cs2) =>
-        match withinLoop env fc A rest M1 P2 with
+      | some (st2, cs2) =>
+        match withinLoop env fc A rest st2 with
         | none => none
-        | some (M3, P3, cs3) => some (M3, P3, cs1 ++ cs2 ++ cs3)
+        | some (st3, cs3) => some (st3, cs1 ++ cs2 ++ cs3)
 
 def selsEmpty : Selections → Bool
   | .nil => true
   | .cons _ _ => false
 
-/-- `findConflictsWithinSelectionSet` (`comparingFields` is empty between top-level calls) -/
+/-- `findConflictsWithinSelectionSet`: the memo of (selection set, fragment) comparisons is made
+    afresh for every top-level comparison (the walker links fields as it goes, so a comparison made
+    for an earlier observer call may have seen fields that were not linked yet) -/
 def findConflictsWithinSelectionSet (env : Env) (fc : FC) (parent : Option Definition) (sels : Selections)
-    (P : Pairs) : Option (Pairs × List Conflict) :=
-  if selsEmpty sels then some (P, [])
+    (st0 : OSt) : Option (OSt × List Conflict) :=
+  if selsEmpty sels then some (st0, [])
   else
+    let st : OSt := { st0 with seen := [] }
     let A := getFieldsAndFragmentNames env.s env.l parent sels
-    match collectConflictsWithin fc [] A.1 P with
+    match collectConflictsWithin fc A.1.map st with
     | none => none
-    | some (P1, cs1) =>
-      match withinLoop env fc A.1 A.2 [] P1 with
+    | some (st1, cs1) =>
+      match withinLoop env fc A.1 A.2 st1 with
       | none => none
-      | some (_, P2, cs2) => some (P2, cs1 ++ cs2)
+      | some (st2, cs2) => some (st2, cs1 ++ cs2)
 
-/- ---------------- fuel ---------------- -/
+/- ---------------- fuel and cost ---------------- -/
 
 mutual
   /-- number of field nodes of a selection set -/
@@ -497,20 +502,50 @@ mutual
     | .spread _ _ _ => 0
 end
 
+mutual
+  /-- number of field and fragment spread nodes of a selection set -/
+  def countNodes : Selections → Nat
+    | .nil => 0
+    | .cons x rest => countNodesSel x + countNodes rest
+  def countNodesSel : Selection → Nat
+    | .field _ _ _ _ sub _ => countNodes sub + 1
+    | .inline _ _ sub _ => countNodes sub
+    | .spread _ _ _ => 1
+end
+
 def sumNat (l : List Nat) : Nat := l.foldr (· + ·) 0
 
 /-- field nodes inside the fragment definitions of the document -/
 def fragFieldCount (d : QueryDoc) : Nat := sumNat (d.frags.map fun f => countFields f.sel)
 
+/-- field and spread nodes inside the fragment definitions of the document -/
+def fragNodeCount (d : QueryDoc) : Nat := sumNat (d.frags.map fun f => countNodes f.sel)
+
 /-- `F`: the field nodes that one `findConflictsWithinSelectionSet(sels)` can reach — those of
     `sels` itself and those of the fragment definitions -/
 def reachableFieldCount (d : QueryDoc) (sels : Selections) : Nat := countFields sels + fragFieldCount d
 
-/-- nested `findConflict` calls allowed: one per `(fieldA, fieldB, exclusive)` triple, plus slack -/
-def overlapFuel (d : QueryDoc) (sels : Selections) : Nat :=
-  2 * reachableFieldCount d sels * reachableFieldCount d sels + 2
+/-- `N`: the field and spread nodes it can reach -/
+def reachableNodeCount (d : QueryDoc) (sels : Selections) : Nat := countNodes sels + fragNodeCount d
 
-/-- frames of one (E) chain: one per fragment definition, plus slack -/
+/-- `W`: what the expansion of one memo key costs at most (in steps) -/
+def expansionCost (d : QueryDoc) (sels : Selections) : Nat :=
+  (reachableNodeCount d sels + 1) * (reachableNodeCount d sels + 1)
+
+/-- the memo keys that can be expanded: `2·K²` fragment pairs and `2·(F+1)·K` (selection set,
+    fragment) pairs (`K` = fragment definitions; the selection sets are `sels` and the
+    sub-selections of the `F` reachable fields) -/
+def memoKeyCount (d : QueryDoc) (sels : Selections) : Nat :=
+  2 * d.frags.length * d.frags.length + 2 * (reachableFieldCount d sels + 1) * d.frags.length
+
+/-- the bound on the steps of one observer call -/
+def overlapStepBound (d : QueryDoc) (sels : Selections) : Nat :=
+  expansionCost d sels * (memoKeyCount d sels + 1)
+
+/-- nested `findConflict` calls allowed -/
+def overlapFuel (d : QueryDoc) (sels : Selections) : Nat := overlapStepBound d sels + 2
+
+/-- frames of one (E) recursion: one per fragment definition, plus slack -/
 def overlapChainFuel (d : QueryDoc) : Nat := d.frags.length + 2
 
 /-- frames of one `check` recursion: one per `(fragment, fragment, exclusive)` triple, plus slack -/
@@ -521,28 +556,28 @@ def overlapEnv (s : SV) (d : QueryDoc) (l : Links) : Env :=
 
 /-- one top-level `m.findConflictsWithinSelectionSet(selectionSet)` of an observer -/
 def overlapRun (s : SV) (d : QueryDoc) (l : Links) (parent : Option Definition) (sels : Selections)
-    (P : Pairs) : Option (Pairs × List Conflict) :=
+    (st : OSt) : Option (OSt × List Conflict) :=
   let env := overlapEnv s d l
-  findConflictsWithinSelectionSet env (fcLevel env (overlapFuel d sels)) parent sels P
+  findConflictsWithinSelectionSet env (fcLevel env (overlapFuel d sels)) parent sels st
 
 def overlapOutOfFuel : Bytes := str "model: out of fuel"
 
-/-- the four observers; the rule state is `comparedFragmentPairs` -/
-def overlappingFieldsStep (s : SV) (d : QueryDoc) (P : Pairs) (e : Event) : StepOut Pairs :=
-  let run (parent : Option Definition) (sels : Selections) : StepOut Pairs :=
-    match overlapRun s d e.links parent sels P with
+/-- the four observers; the rule state is the manager -/
+def overlappingFieldsStep (s : SV) (d : QueryDoc) (st : OSt) (e : Event) : StepOut OSt :=
+  let run (parent : Option Definition) (sels : Selections) : StepOut OSt :=
+    match overlapRun s d e.links parent sels st with
     | none => .panic overlapOutOfFuel
-    | some (P', cs) => .ok P' (cs.map Conflict.toErr)
+    | some (st', cs) => .ok st' (cs.map Conflict.toErr)
   match e.p with
   | .operation op _ => run (opRoot s op.op).1 op.sel
   | .field f _ dfn =>
-    if e.cur.isNone then .ok P []
+    if e.cur.isNone then .ok st []
     else run (dfn.bind fun fd => s.type? fd.type.name) f.sel
   | .inlineFragment f parent => run (inlineNext s parent f.typeCond) f.sel
   | .fragment f dfn => run dfn f.sel
-  | _ => .ok P []
+  | _ => .ok st []
 
 def overlappingFieldsCanBeMerged : Rule :=
-  { name := str "OverlappingFieldsCanBeMerged", σ := Pairs, init := [], step := overlappingFieldsStep }
+  { name := str "OverlappingFieldsCanBeMerged", σ := OSt, init := OSt.init, step := overlappingFieldsStep }
 
 end Gql.Validate.Rules
